@@ -389,11 +389,11 @@ Print Assumptions C11_any_history_from_empty.
 
 (* the store level on ANY tree (no assumption on the layout; for Entry::replace: the replaced alternative does not begin with white space): the register machine computes the pure tree function t_op of model/RelEditTree.v *)
 Theorem C11_any_machine_step : forall o T T' st,
-  operands_new_all o = true -> ereplace_ready o T -> holds st T -> t_op o T = Ok T' ->
+  operands_new_all o = true -> is_node T = true -> ereplace_ready o T -> holds st T -> t_op o T = Ok T' ->
   exists st', run_ops fixed (compile o) st = Ok st' /\ holds st' T'.
 Proof. exact op_step_tree_all. Qed.
 Check C11_any_machine_step : forall o T T' st,
-  operands_new_all o = true -> ereplace_ready o T -> holds st T -> t_op o T = Ok T' ->
+  operands_new_all o = true -> is_node T = true -> ereplace_ready o T -> holds st T -> t_op o T = Ok T' ->
   exists st', run_ops fixed (compile o) st = Ok st' /\ holds st' T'.
 Print Assumptions C11_any_machine_step.
 
@@ -403,11 +403,11 @@ Print Assumptions C11_any_machine_step.
    [gop] = either kind of operand. *)
 (* the store level on ANY tree: parse the operand, obtain the handle into the parsed tree, run the operation = the tree function tt_op with the operand's node *)
 Theorem C11_any_parsed_machine_step : forall o T T' st,
-  poperands_ok o = true -> preplace_ready o T -> holds st T -> tt_op (ptop o) T = Ok T' ->
+  poperands_ok o = true -> is_node T = true -> preplace_ready o T -> holds st T -> tt_op (ptop o) T = Ok T' ->
   exists st', run_ops fixed (pcompile o) st = Ok st' /\ holds st' T'.
 Proof. exact pop_step_tree. Qed.
 Check C11_any_parsed_machine_step : forall o T T' st,
-  poperands_ok o = true -> preplace_ready o T -> holds st T -> tt_op (ptop o) T = Ok T' ->
+  poperands_ok o = true -> is_node T = true -> preplace_ready o T -> holds st T -> tt_op (ptop o) T = Ok T' ->
   exists st', run_ops fixed (pcompile o) st = Ok st' /\ holds st' T'.
 Print Assumptions C11_any_parsed_machine_step.
 
@@ -685,17 +685,27 @@ Proof. exact version_pos_unreadable. Qed.
 Check C11_version_pos_unreadable : reads_clean [97; 32; 40; 62; 61; 32; 49; 41; 58; 97; 110; 121]%N = false /\ reads_clean [97; 58; 97; 110; 121; 32; 40; 62; 61; 32; 49; 41]%N = true.
 Print Assumptions C11_version_pos_unreadable.
 
-(* 6. The recorded finding c11-handle-after-rebuild: the history theorems quantify over handles obtained from the CURRENT root; an entry handle obtained before Relations::push points into the old tree (push re-roots `self`), so pushing x through it is not visible in the field — with and without the fixes; obtained after the push it is *)
-Theorem C11_stale_handle_witness : 
+(* 6. The former finding c11-handle-after-rebuild, repaired by proposed_fixes/C11-10 (in-place splices): an entry handle obtained BEFORE Relations::push pointed into the old tree (push re-rooted `self`), so pushing x through it was not visible in the field — on the shipped code and on the code with the eight earlier fixes; with C11-10 it is *)
+Theorem C11_in_place_refuted : 
   run_text shipped (IStrict [97; 44; 32; 98]%N) [OGetEntry 0 0; ONewEntry 1 (ESParse [99]%N); OPush 1; ONewRel 1 (RSSimple [120]%N); OEPush 0 1] = Ok [97; 44; 32; 98; 44; 32; 99]%N /\
-  run_text fixed (IStrict [97; 44; 32; 98]%N) [OGetEntry 0 0; ONewEntry 1 (ESParse [99]%N); OPush 1; ONewRel 1 (RSSimple [120]%N); OEPush 0 1] = Ok [97; 44; 32; 98; 44; 32; 99]%N /\
-  run_text fixed (IStrict [97; 44; 32; 98]%N) [ONewEntry 1 (ESParse [99]%N); OPush 1; OGetEntry 0 0; ONewRel 1 (RSSimple [120]%N); OEPush 0 1] = Ok [97; 32; 124; 32; 120; 44; 32; 98; 44; 32; 99]%N.
-Proof. exact (conj stale_handle_shipped (conj stale_handle_fixed fresh_handle_fixed)). Qed.
-Check C11_stale_handle_witness : 
+  run_text without_in_place (IStrict [97; 44; 32; 98]%N) [OGetEntry 0 0; ONewEntry 1 (ESParse [99]%N); OPush 1; ONewRel 1 (RSSimple [120]%N); OEPush 0 1] = Ok [97; 44; 32; 98; 44; 32; 99]%N /\
+  run_text fixed (IStrict [97; 44; 32; 98]%N) [OGetEntry 0 0; ONewEntry 1 (ESParse [99]%N); OPush 1; ONewRel 1 (RSSimple [120]%N); OEPush 0 1] = Ok [97; 32; 124; 32; 120; 44; 32; 98; 44; 32; 99]%N.
+Proof. exact (conj in_place_shipped (conj in_place_needed in_place_fixed)). Qed.
+Check C11_in_place_refuted : 
   run_text shipped (IStrict [97; 44; 32; 98]%N) [OGetEntry 0 0; ONewEntry 1 (ESParse [99]%N); OPush 1; ONewRel 1 (RSSimple [120]%N); OEPush 0 1] = Ok [97; 44; 32; 98; 44; 32; 99]%N /\
-  run_text fixed (IStrict [97; 44; 32; 98]%N) [OGetEntry 0 0; ONewEntry 1 (ESParse [99]%N); OPush 1; ONewRel 1 (RSSimple [120]%N); OEPush 0 1] = Ok [97; 44; 32; 98; 44; 32; 99]%N /\
-  run_text fixed (IStrict [97; 44; 32; 98]%N) [ONewEntry 1 (ESParse [99]%N); OPush 1; OGetEntry 0 0; ONewRel 1 (RSSimple [120]%N); OEPush 0 1] = Ok [97; 32; 124; 32; 120; 44; 32; 98; 44; 32; 99]%N.
-Print Assumptions C11_stale_handle_witness.
+  run_text without_in_place (IStrict [97; 44; 32; 98]%N) [OGetEntry 0 0; ONewEntry 1 (ESParse [99]%N); OPush 1; ONewRel 1 (RSSimple [120]%N); OEPush 0 1] = Ok [97; 44; 32; 98; 44; 32; 99]%N /\
+  run_text fixed (IStrict [97; 44; 32; 98]%N) [OGetEntry 0 0; ONewEntry 1 (ESParse [99]%N); OPush 1; ONewRel 1 (RSSimple [120]%N); OEPush 0 1] = Ok [97; 32; 124; 32; 120; 44; 32; 98; 44; 32; 99]%N.
+Print Assumptions C11_in_place_refuted.
+
+(* the same for two handles to one relation: set_version through the first re-built the relation, set_archqual through the second then edited the detached old node *)
+Theorem C11_in_place_relation_refuted : 
+  run_text without_in_place (IStrict [97; 44; 32; 98]%N) [OGetEntry 0 0; OGetRel 0 0 0; OGetRel 1 0 0; OSetVersion 0 (Some (VGe, [49]%N)); OSetArchqual 1 [97; 110; 121]%N] = Ok [97; 32; 40; 62; 61; 32; 49; 41; 44; 32; 98]%N /\
+  run_text fixed (IStrict [97; 44; 32; 98]%N) [OGetEntry 0 0; OGetRel 0 0 0; OGetRel 1 0 0; OSetVersion 0 (Some (VGe, [49]%N)); OSetArchqual 1 [97; 110; 121]%N] = Ok [97; 58; 97; 110; 121; 32; 40; 62; 61; 32; 49; 41; 44; 32; 98]%N.
+Proof. exact (conj in_place_rel_needed in_place_rel_fixed). Qed.
+Check C11_in_place_relation_refuted : 
+  run_text without_in_place (IStrict [97; 44; 32; 98]%N) [OGetEntry 0 0; OGetRel 0 0 0; OGetRel 1 0 0; OSetVersion 0 (Some (VGe, [49]%N)); OSetArchqual 1 [97; 110; 121]%N] = Ok [97; 32; 40; 62; 61; 32; 49; 41; 44; 32; 98]%N /\
+  run_text fixed (IStrict [97; 44; 32; 98]%N) [OGetEntry 0 0; OGetRel 0 0 0; OGetRel 1 0 0; OSetVersion 0 (Some (VGe, [49]%N)); OSetArchqual 1 [97; 110; 121]%N] = Ok [97; 58; 97; 110; 121; 32; 40; 62; 61; 32; 49; 41; 44; 32; 98]%N.
+Print Assumptions C11_in_place_relation_refuted.
 
 (* Non-vacuity: a field of two entries, a history that uses all ten operations in range; the
    hypotheses of C11_history_from_constructors hold and the final text is computed. *)
